@@ -168,15 +168,19 @@ def make_carver(case, cfg):
     from AutoCarver.carvers.continuous_carver import ContinuousCarver
     kw = dict(min_freq=cfg['min_freq'], quantitative_features=list(case['quantitative']), qualitative_features=list(case['qualitative']), ordinal_features=list(case['ordinal']),
               values_orders=values_orders_arg(case), max_n_mod=cfg['max_n_mod'], min_freq_mod=cfg.get('min_freq_mod'), output_dtype=cfg.get('output_dtype', 'float'),
-              dropna=cfg.get('dropna', True), copy=cfg.get('copy', True), verbose=False, n_jobs=cfg.get('n_jobs', 1), **extra_kwargs(cfg))
+              dropna=cfg.get('dropna', True), copy=cfg.get('copy', True), verbose=bool(cfg.get('verbose', False)), n_jobs=cfg.get('n_jobs', 1), **extra_kwargs(cfg))
+    if cfg.get('verbose'): kw['pretty_print'] = False          # plain-text tables (the HTML ones need jinja2, which is not installed here)
     if case['target'] == 'binary': return BinaryCarver(sort_by=cfg.get('sort_by', 'tschuprowt'), **kw)
     return ContinuousCarver(**kw)
 
 
 def fit_carver(case, cfg):
     c = make_carver(case, cfg)
-    if case['X_dev'] is not None: c.fit(case['X'], case['y'], X_dev=case['X_dev'], y_dev=case['y_dev'])
-    else: c.fit(case['X'], case['y'])
+    import contextlib, io
+    with (contextlib.redirect_stdout(io.StringIO()) if cfg.get('verbose') else contextlib.nullcontext()), (contextlib.redirect_stderr(io.StringIO()) if cfg.get('verbose') else contextlib.nullcontext()):
+        # verbose=True prints tables and progress bars: what is printed must not change what is fitted
+        if case['X_dev'] is not None: c.fit(case['X'], case['y'], X_dev=case['X_dev'], y_dev=case['y_dev'])
+        else: c.fit(case['X'], case['y'])
     return c
 
 
